@@ -63,11 +63,11 @@ package tools
 // ---------------------------------------------------------------- the import itself (C20)
 // From the property: an import that fails any of the three validations is refused without
 // modifying existing data.
-//@ func ImportSnapshot [C20]
+//@ func ImportSnapshot [C20 C16]
 //@ noframe
 //@ nobounds
-//@ requires !raftio.gDataMutated && !raftio.gImpSettingsOK && !raftio.gImpImageOK && !raftio.gImpMembersOK
-//@ modifies raftio.gDataMutated, raftio.gImpSettingsOK, raftio.gImpImageOK, raftio.gImpMembersOK
+//@ requires !raftio.gDataMutated && !raftio.gImpSettingsOK && !raftio.gImpImageOK && !raftio.gImpMembersOK && !raftio.gPublished
+//@ modifies raftio.gDataMutated, raftio.gImpSettingsOK, raftio.gImpImageOK, raftio.gImpMembersOK, raftio.gPublished
 //@ ensures !(raftio.gImpSettingsOK && raftio.gImpImageOK && raftio.gImpMembersOK) ==> err != nil && !raftio.gDataMutated
 
 //@ func getSnapshotFilepath [C20]
